@@ -908,3 +908,18 @@ func SameFile(a, b os.FileInfo) bool {
 	y, ok2 := b.(*fileInfo)
 	return ok1 && ok2 && x.n == y.n
 }
+
+// Chtimes sets the modification time of the named file (access times are not modelled).
+func Chtimes(name string, atime, mtime time.Time) error {
+	M.step("chtimes", name)
+	_, _, n, err := M.walk("chtimes", name)
+	if err != nil {
+		return err
+	}
+	if n == nil {
+		return perr("chtimes", name, syscall.ENOENT)
+	}
+	n.Mtime = mtime.Unix() - 1700000000
+	M.note("chtimes", name, n, "write")
+	return nil
+}
